@@ -219,3 +219,54 @@ Proof.
   apply (quote_survives d q c n [] [] Hq); [|assumption].
   unfold wf_archive. cbn [comment files app forallb]. now rewrite Hc.
 Qed.
+
+(* ------------------------------------------------------------------ *)
+(* Examples                                                            *)
+
+Import Coq.Strings.String.StringSyntax.
+
+(* the two inputs on which the unrepaired NeedsQuote answered "no" *)
+Example ex_needs_quote_eof :
+  needs_quote (B "-- a --") = true /\ needs_quote (B "x" ++ [NL] ++ B "-- a --") = true /\
+  needs_quote (B "-- a --" ++ [CR]) = true /\ needs_quote (B "--a --" ++ [NL] ++ B "-- --") = false.
+Proof. vm_compute. repeat split; reflexivity. Qed.
+
+Example ex_wf_name : wf_name (B "dir/a b.txt") = true /\ wf_name (B " a") = false /\ wf_name [] = false.
+Proof. vm_compute. repeat split; reflexivity. Qed.
+
+(* both directions of needs_quote_semantic on concrete data *)
+Example ex_semantic_no :
+  parse (format {| comment := []; files := [(B "f", B "x" ++ [NL] ++ B "--y --")] |})
+  = {| comment := []; files := [(B "f", B "x" ++ [NL] ++ B "--y --" ++ [NL])] |}.
+Proof. apply needs_quote_semantic; vm_compute; reflexivity. Qed.
+
+Example ex_semantic_yes :
+  parse (format {| comment := []; files := [(B "f", B "x" ++ [NL] ++ B "-- y --")] |})
+  = {| comment := []; files := [(B "f", B "x" ++ [NL]); (B "y", [])] |}.
+Proof. vm_compute. reflexivity. Qed.
+
+Definition ex_text : bytes := B "a" ++ [NL] ++ B "-- b --" ++ [NL] ++ [NL] ++ B ">c" ++ CRLF.
+
+Example ex_quote :
+  quote ex_text = Some (B ">a" ++ [NL] ++ B ">-- b --" ++ [NL] ++ B ">" ++ [NL] ++ B ">>c" ++ CRLF).
+Proof. vm_compute. reflexivity. Qed.
+
+Example ex_unquote_quote : forall q, quote ex_text = Some q -> unquote q = Some ex_text.
+Proof. intros q. apply unquote_quote. Qed.
+
+Example ex_quote_needed : needs_quote ex_text = true.
+Proof. vm_compute. reflexivity. Qed.
+
+Example ex_quote_refused :
+  quote (B "a") = None /\ quote [xff; NL] = None /\ quote [xc3; NL] = None /\ quote [xc3; xa9; NL] <> None.
+Proof. vm_compute. repeat split; try reflexivity. discriminate. Qed.
+
+Example ex_quote_survives : forall q, quote ex_text = Some q ->
+  parse (format {| comment := B "c" ++ [NL]; files := [(B "x", []); (B "f", q); (B "y", B "z" ++ [NL])] |})
+  = {| comment := B "c" ++ [NL]; files := [(B "x", []); (B "f", q); (B "y", B "z" ++ [NL])] |}.
+Proof.
+  intros q Hq. apply (quote_survives ex_text q _ (B "f") [(B "x", [])] [(B "y", B "z" ++ [NL])] Hq);
+    vm_compute; reflexivity.
+Qed.
+
+Eval vm_compute in (match quote ex_text with Some q => unquote q | None => None end).
